@@ -35,6 +35,8 @@ enum Perturb {
     ImportTypeChanged,
     ExportTypeChanged,
     VersionShift,
+    /// the composition exports nothing at all although the target world has exports
+    NothingExported,
 }
 
 #[derive(Debug, PartialEq, Eq, Clone)]
@@ -451,7 +453,7 @@ pub fn run(ctx: &mut Ctx) {
         let mut we = exports.clone();
         let mut effective = perturb;
         match perturb {
-            Perturb::None => {}
+            Perturb::None | Perturb::NothingExported => {}
             Perturb::Superset => {
                 wi.push(WorldItem::Func { name: "extra-import".into(), func: func("extra-import", 1) });
                 if let Some(id) = ids.iter().find(|id| !wi.iter().chain(we.iter()).any(|i| i.extern_name() == *id || model_compatible(i.extern_name(), id))) {
@@ -500,13 +502,20 @@ pub fn run(ctx: &mut Ctx) {
                 }
             }
         }
+        // a composition that only imports: every export of the world is missing
+        let export_nothing = !fixed && matches!(effective, Perturb::None | Perturb::Superset | Perturb::ExportAdded) && rng.chance(1, 8);
+        if export_nothing {
+            effective = Perturb::NothingExported;
+        }
         let world = WorldModel { pkg: "test:tgt".into(), world: "w".into(), imports: wi, exports: we };
         let world_text = witgen::print_world_pkg(&world);
         let Some(world_pkg) = catch(|| witgen::encode_wit_package(&pkg_texts, &world_text)).ok().and_then(|r| r.ok()) else {
             ctx.count("gen-fail");
             continue;
         };
-        let body = if rng.chance(1, 2) && !fixed {
+        let body = if export_nothing {
+            "let i = new test:c0 { ... };\n".to_string()
+        } else if rng.chance(1, 2) && !fixed {
             "let i = new test:c0 { ... };\nexport i...;\n".to_string()
         } else {
             let mut s = String::from("let i = new test:c0 { ... };\n");
@@ -596,7 +605,7 @@ pub fn run(ctx: &mut Ctx) {
         let want = match effective {
             Perturb::None | Perturb::Superset => Some(Verdict::Accept),
             Perturb::ImportRemoved => Some(Verdict::ImportNotInTarget),
-            Perturb::ExportAdded => Some(Verdict::MissingExport),
+            Perturb::ExportAdded | Perturb::NothingExported => Some(Verdict::MissingExport),
             Perturb::ImportTypeChanged | Perturb::ExportTypeChanged => Some(Verdict::Mismatch),
             Perturb::VersionShift => None,
         };
